@@ -17,8 +17,9 @@
   What depends on the generated text: the ORDER of the tuple components of the loop state of `make_scaffold_name`
   (`absScan`) and of the `(haplotype, self)` pair after `haplotype_from_first_row_name`, and that the tail after the Primary block
   is emitted twice (macros `namer_tail` / `namer_primary` are run on each copy); the names of the generated locals do not matter.
-  The translator emits these tuples sorted by variable name, so re-ordering assignments / `elif` branches in the Python does not
-  permute them; the per-tag step of the loop is proved by case analysis on the MODEL-level conditions (`tag = sPainted`, …) with the
+  The translator emits these tuples sorted by the Lean text of the variable's type, then by name, so re-ordering assignments /
+  `elif` branches in the Python (or renaming a local) does not permute them; the order of the loop state is known to the pattern
+  macro `scanSt⟨…⟩` only; the per-tag step of the loop is proved by case analysis on the MODEL-level conditions (`tag = sPainted`, …) with the
   pairwise distinctness of the three literal tags given to `simp`, so the order of the `if … elif` chain does not matter either.
   Everything else goes through unfolding by name, case analysis on model-level quantities and `simp`.  Truthiness tests on
   `str`-or-None values are handled by splitting the VALUE into `none` / `some []` / `some (c :: cs)`, so the proofs do not care
@@ -384,9 +385,15 @@ def tagsOf (sc : Scaffold) (ft : Option (List Str)) : List Str :=
   | some (t :: ts) => t :: ts
   | _ => sc.fragmentTags
 
+/-- THE place that knows the order of the generated loop-state tuple of `make_scaffold_name` (the translator sorts the carried
+    variables by the Lean text of their type, then by name): a pattern / constructor with the components in a fixed, named order.
+    `absScan` and every `intro` that destructures a loop state go through it. -/
+local macro "scanSt⟨" hap:term ", " ip:term ", " pt:term ", " rk:term ", " sn:term ", " self:term "⟩" : term =>
+  `(($rk, $hap, $sn, $ip, $pt, $self))
+
 /-- the loop state of `make_scaffold_name` (in the order of the generated tuple) ↦ the model's `(Namer, TagScan)` -/
-def absScan (cH cU : Int → Nat) : Option Str × Bool × Bool × Option Int × Option Str × PyRt.SrcNamer → Namer × TagScan
-  | (haplotype, is_painted, primary_tag, rank, scaffold_name, self) =>
+def absScan (cH cU : Int → Nat) : Option Int × Option Str × Option Str × Bool × Bool × PyRt.SrcNamer → Namer × TagScan
+  | scanSt⟨haplotype, is_painted, primary_tag, rank, scaffold_name, self⟩ =>
     (absG cH cU self,
      { scaffoldName := scaffold_name, haplotype := haplotype, isPainted := is_painted, rank := rank, primaryTag := primary_tag })
 
@@ -496,7 +503,7 @@ theorem make_scaffold_name_tieG (cH cU : Int → Nat) (hU : cU 0 = 0) (s : PyRt.
   simp only [ok_bind, PyRt.needIter, l2, l6, l7]
   refine forIn_sim (absScan cH cU) _ scanTag _ _ (absG cH cU) ?hstep ?hK _ _
   case hstep =>
-    intro tag ⟨hap, ip, pt, rk, sn, self⟩
+    intro tag scanSt⟨hap, ip, pt, rk, sn, self⟩
     simp only [absScan, scanTag, get_set_haplotype_eq, Namer.getSetHaplotype, ← truthy_eq]
     -- the three literal tags are pairwise different, so the order in which the source tests them does not matter
     obtain ⟨d1, d2, d3, d4, d5, d6⟩ : sPainted ≠ sTarget ∧ sPainted ≠ sPrimary ∧ sTarget ≠ sPainted ∧ sTarget ≠ sPrimary ∧
@@ -519,7 +526,7 @@ theorem make_scaffold_name_tieG (cH cU : Int → Nat) (hU : cU 0 = 0) (s : PyRt.
           Except.bind]
     · simp [h1, h2, h3, h4, h5, Except.map, ctlNext, absScan, absG, hU]
   case hK =>
-    intro ⟨hap, ip, pt, rk, sn, self⟩
+    intro scanSt⟨hap, ip, pt, rk, sn, self⟩
     simp only [absScan, mkTail1_eq]
     refine bind_sim (fun p => (absG cH cU p.2, p.1)) (absG cH cU) _ _ _ _ ?h1 ?hT1
     case h1 =>
